@@ -47,6 +47,9 @@ def rand_ddata(rng, depth, need_name):
         ch = []
     else:
         ch = [rand_ddata(rng, depth + 1, need_name) for _ in range(rng.randrange(1, 4))]
+        if rng.random() < 0.3:
+            # the same sub-dictionary listed several times (equal values; with `data_shared` one Python object)
+            ch = ch + [rng.choice(ch) for _ in range(rng.choice([1, 1, 2]))]
     return {"attrs": attrs, "children": ch}
 
 
@@ -78,6 +81,9 @@ def base_cases(tier, rng, json_layer):
     if json_layer:
         for _ in range(6 if tier == "quick" else 60):
             yield big_case(rng)
+    for sh in gen.big_shapes(rng, tier, 450):
+        if shape_height(sh) <= 135:          # deeper nestings exhaust the interpreter's recursion limit in copy.deepcopy / json of the harness itself
+            yield make(rng, sh, json_layer)
     nmax = 4 if tier == "quick" else 6
     for n in range(1, nmax + 1):
         for sh in gen.shapes(n):
@@ -107,6 +113,7 @@ def make(rng, shape, json_layer):
     c["start"] = addr
     if rng.random() < 0.5:
         c["data"] = rand_ddata(rng, 0, cls == "node")
+        c["data_shared"] = rng.random() < 0.5
     if c["attriter"] == "drop_a" and rng.random() < 0.5:
         c["via_subclass"] = True       # the same customisation through a DictExporter subclass (overridden method)
     if rng.random() < 0.3 and not c.get("via_subclass"):
